@@ -32,6 +32,14 @@ _real_open = builtins.open
 _real_exists = os.path.exists
 _real_mkdir = os.mkdir
 _real_isdir = os.path.isdir
+_real_stat = os.stat
+_real_lstat = os.lstat
+_real_remove = os.remove
+_real_unlink = os.unlink
+_real_rename = os.rename
+_real_replace = os.replace
+_real_listdir = os.listdir
+_real_rmdir = os.rmdir
 
 _current = None  # the SimFS instance of the run in progress
 _installed = False
@@ -259,6 +267,58 @@ class SimFS:
         self.events.append(("exists", path))
         return path in self.files or path in self.dirs
 
+    def _ino(self, path):
+        inos = self.__dict__.setdefault("_inos", {})
+        if path not in inos:
+            inos[path] = 1000 + len(inos)
+        return inos[path]
+
+    def stat(self, path):
+        """os.stat/os.lstat for a simulated path (os.path.isfile/isdir/getsize/samefile build on it)"""
+        path = path.rstrip("/") or "/"
+        self.events.append(("stat", path))
+        if path in self.files:
+            return os.stat_result((0o100644, self._ino(path), 7, 1, 0, 0, len(self.files[path]), 0, 0, 0))
+        if path in self.dirs:
+            return os.stat_result((0o040755, self._ino(path), 7, 2, 0, 0, 4096, 0, 0, 0))
+        raise FileNotFoundError(errno.ENOENT, "No such file or directory", path)
+
+    def remove(self, path):
+        if path in self.dirs:
+            raise IsADirectoryError(errno.EISDIR, "Is a directory", path)
+        if path not in self.files:
+            raise FileNotFoundError(errno.ENOENT, "No such file or directory", path)
+        del self.files[path]
+        self.events.append(("unlink", path))
+
+    def rename(self, src, dst):
+        if src not in self.files:
+            raise FileNotFoundError(errno.ENOENT, "No such file or directory", src)
+        if os.path.dirname(dst) not in self.dirs:
+            raise FileNotFoundError(errno.ENOENT, "No such file or directory", dst)
+        if dst in self.dirs:
+            raise IsADirectoryError(errno.EISDIR, "Is a directory", dst)
+        self.files[dst] = self.files.pop(src)
+        self.events.append(("rename", src, dst))
+        self.events.append(("renamed_onto", dst, src))
+
+    def listdir(self, path):
+        path = path.rstrip("/")
+        if path not in self.dirs:
+            raise FileNotFoundError(errno.ENOENT, "No such file or directory", path)
+        pre = path + "/"
+        names = {p[len(pre):].split("/")[0] for p in list(self.files) + list(self.dirs) if p.startswith(pre)}
+        return sorted(names)
+
+    def rmdir(self, path):
+        path = path.rstrip("/")
+        if path not in self.dirs:
+            raise FileNotFoundError(errno.ENOENT, "No such file or directory", path)
+        if self.listdir(path):
+            raise OSError(errno.ENOTEMPTY, "Directory not empty", path)
+        self.dirs.discard(path)
+        self.events.append(("rmdir", path))
+
     def mkdir(self, path, mode=0o777):
         path = path.rstrip("/")
         if path in self.dirs or path in self.files:
@@ -329,13 +389,28 @@ class RealFS:
     def mkdir(self, path, *a, **k):
         return _real_mkdir(self._map(path), *a, **k)
 
+    def stat(self, path):
+        return _real_stat(self._map(path))
+
+    def remove(self, path):
+        return _real_remove(self._map(path))
+
+    def rename(self, src, dst):
+        return _real_replace(self._map(src), self._map(dst))
+
+    def listdir(self, path):
+        return sorted(_real_listdir(self._map(path)))
+
+    def rmdir(self, path):
+        return _real_rmdir(self._map(path))
+
 
 def _is_sim(path):
     try:
         p = os.fspath(path)
     except TypeError:
         return False
-    return isinstance(p, str) and p.startswith(PREFIX)
+    return isinstance(p, str) and (p.startswith(PREFIX) or p == PREFIX[:-1])
 
 
 def _open(file, *a, **k):
@@ -362,6 +437,58 @@ def _mkdir(path, *a, **k):
     return _real_mkdir(path, *a, **k)
 
 
+def _stat(path, *a, **k):
+    if _current is not None and _is_sim(path):
+        return _current.stat(os.fspath(path))
+    return _real_stat(path, *a, **k)
+
+
+def _lstat(path, *a, **k):
+    if _current is not None and _is_sim(path):
+        return _current.stat(os.fspath(path))
+    return _real_lstat(path, *a, **k)
+
+
+def _remove(path, *a, **k):
+    if _current is not None and _is_sim(path):
+        return _current.remove(os.fspath(path))
+    return _real_remove(path, *a, **k)
+
+
+def _unlink(path, *a, **k):
+    if _current is not None and _is_sim(path):
+        return _current.remove(os.fspath(path))
+    return _real_unlink(path, *a, **k)
+
+
+def _rename(src, dst, *a, **k):
+    if _current is not None and (_is_sim(src) or _is_sim(dst)):
+        if not (_is_sim(src) and _is_sim(dst)):
+            raise OSError(errno.EXDEV, "Invalid cross-device link", os.fspath(src))
+        return _current.rename(os.fspath(src), os.fspath(dst))
+    return _real_rename(src, dst, *a, **k)
+
+
+def _replace(src, dst, *a, **k):
+    if _current is not None and (_is_sim(src) or _is_sim(dst)):
+        if not (_is_sim(src) and _is_sim(dst)):
+            raise OSError(errno.EXDEV, "Invalid cross-device link", os.fspath(src))
+        return _current.rename(os.fspath(src), os.fspath(dst))
+    return _real_replace(src, dst, *a, **k)
+
+
+def _listdir(path=".", *a, **k):
+    if _current is not None and _is_sim(path):
+        return _current.listdir(os.fspath(path))
+    return _real_listdir(path, *a, **k)
+
+
+def _rmdir(path, *a, **k):
+    if _current is not None and _is_sim(path):
+        return _current.rmdir(os.fspath(path))
+    return _real_rmdir(path, *a, **k)
+
+
 def install():
     """Idempotent; replaces the module attributes praatio looks up at call time."""
     global _installed
@@ -372,6 +499,16 @@ def install():
     os.path.exists = _exists
     os.path.isdir = _isdir
     os.mkdir = _mkdir
+    # the rest of the path-level seam: os.path.isfile/getsize/samefile/islink and shutil's
+    # copy/move helpers are built on these and are looked up in `os` at call time
+    os.stat = _stat
+    os.lstat = _lstat
+    os.remove = _remove
+    os.unlink = _unlink
+    os.rename = _rename
+    os.replace = _replace
+    os.listdir = _listdir
+    os.rmdir = _rmdir
     _installed = True
 
 
